@@ -2,9 +2,9 @@
    Model: coq/theories/Smime.v (Msg.signMessage pre-render + header-line skip, multipart/signed
    render) on top of Writer.v; the CMS signer is an oracle function. *)
 From Coq Require Import String.
-From Verif Require Import Bytes Writer Smime.
+From Verif Require Import Bytes HeaderFold Writer MimeTree MimeRead Render Smime.
 From VerifGen Require Import Gen.
-From VerifProofs Require Import WriterProofs SmimeProofs.
+From VerifProofs Require Import WriterProofs SmimeProofs RenderIdemProofs RenderProofs MimeReadProofs SkipProofs SmimeMainProofs.
 
 (* the multipart/signed wrapper announces protocol / micalg as required (constants regenerated
    from the source on every run) *)
@@ -29,19 +29,80 @@ Theorem C08_signed_render_failure_reported : forall (signer : bytes -> bytes) da
 Proof. exact signed_render_failure_reported. Qed.
 Print Assumptions C08_signed_render_failure_reported.
 
-(* The central statement — the bytes handed to the signer are exactly the first body part of the
-   emitted multipart/signed message, for every message shape:
+(* ---------------- the central statement ----------------
+   Pure view of the rendering: coq/theories/Render.v (forest_gen true z = the body entity in the
+   enclosed form of the S/MIME pre-render, ser_node = its bytes); refinement: proofs/RenderProofs.v;
+   this section: proofs/SmimeMainProofs.v. *)
 
-     forall signer d i rb sb m, clean boundaries -> no failing producer ->
-       sign_input (resolve d i rb m) = Some inp ->
-       s_out (write_to_signed signer d i rb sb m unlimited)
-         = top_headers ++ "Content-Type: multipart/signed; ...; boundary=" sb ++ CRLF CRLF
-           ++ "--" sb CRLF ++ inp ++ CRLF "--" sb CRLF ++ signature_part(signer inp) ++ CRLF "--" sb "--" CRLF
+(* the header-line counter signMessage skips by: for EVERY message (any header content, also
+   preformatted, empty or multi-line fields) it equals the number of line ends of the top-level
+   header block, which consists of complete lines; the body entity never touches it *)
+Theorem C08_header_count : forall (z : rmsg) (st : mw),
+  hcount (write_top_headers z st) = (hcount st + count_crlf (top_headers (z_msg z)))%nat /\
+  complete (top_headers (z_msg z)).
+Proof. exact hc_write_top_headers. Qed.
+Print Assumptions C08_header_count.
 
-   is proved in coq/props/C08.v once the pure-render refinement (coq/proofs/RenderProofs.v) is
-   complete; until then it is established per run by the correspondence (model = implementation on
-   every rendered byte AND SHA-256(model's signer input) = the CMS messageDigest of the real
-   signature) and by the independent CMS verifier.  Instances, by computation: *)
+Theorem C08_entity_keeps_count : forall (encl : bool) (z : rmsg) (st : mw),
+  hcount (write_entity encl z st) = hcount st.
+Proof. exact hc_write_entity. Qed.
+Print Assumptions C08_entity_keeps_count.
+
+(* what the signer is given: exactly the body entity (for every shape with any content) *)
+Theorem C08_sign_input_is_entity : forall (z : rmsg) (t : node),
+  no_bad_boundary z -> rmsg_has_failing_producer z = false ->
+  forest_gen true z = [t] ->
+  sign_input z = Some (ser_node t).
+Proof. exact sign_input_is_entity. Qed.
+Print Assumptions C08_sign_input_is_entity.
+
+(* "one entity" holds as soon as the message has a body part, an embed or an attachment *)
+Theorem C08_one_entity : forall (d i : bytes) (rb : list bytes) (m : msg),
+  (1 <= length (m_parts m) + length (m_embeds m) + length (m_attach m))%nat ->
+  exists t, forest_gen true (resolve d i rb m) = [t].
+Proof. exact resolved_forest_single. Qed.
+Print Assumptions C08_one_entity.
+
+(* THE EMITTED MESSAGE is the multipart/signed frame whose FIRST child is byte for byte the
+   signer's input and whose second child is the signature part — for every signer, wrapper
+   boundary and message shape; no error, no panic *)
+Theorem C08_signed_eq_emitted : forall (signer : bytes -> bytes) (d i : bytes) (rb : list bytes) (sb : bytes) (m : msg) (t : node),
+  let z := resolve d i rb m in
+  no_bad_boundary z -> msg_has_failing_producer m = false ->
+  forest_gen true z = [t] ->
+  let r := write_to_signed signer d i rb sb m unlimited in
+  s_err r = false /\ s_panic r = false /\ s_input r = Some (ser_node t) /\
+  s_out r = top_headers (z_msg z) ++ signed_ctype_field sb ++ Gen.double_newline ++
+            mp_frame sb [ser_node t; sig_leaf_text (signer (ser_node t))].
+Proof. exact signed_output_form. Qed.
+Print Assumptions C08_signed_eq_emitted.
+
+(* an independent reader (MimeRead.v, RFC 2046) splitting the body of the emitted message at the
+   wrapper boundary finds two parts, the first of which is the signed bytes.  Hypothesis H-rand on
+   the wrapper boundary only for the first part: the signature part never shows a delimiter. *)
+Theorem C08_first_part_read : forall (signer : bytes -> bytes) (d i : bytes) (rb : list bytes) (sb : bytes) (m : msg) (t : node),
+  let z := resolve d i rb m in
+  no_bad_boundary z -> msg_has_failing_producer m = false ->
+  forest_gen true z = [t] ->
+  ~ In 13%N sb -> fresh_for sb (ser_node t) ->
+  let r := write_to_signed signer d i rb sb m unlimited in
+  exists body,
+    s_out r = top_headers (z_msg z) ++ signed_ctype_field sb ++ Gen.double_newline ++ body /\
+    split_parts sb body = Some [ser_node t; sig_leaf_text (signer (ser_node t))] /\
+    s_input r = Some (ser_node t).
+Proof. exact signed_first_part_read. Qed.
+Print Assumptions C08_first_part_read.
+
+(* rendering again: after any signed render (successful or not, any destination) a later signed
+   render signs and emits exactly what the first one would *)
+Theorem C08_signed_again : forall (signer : bytes -> bytes) d1 i1 rb1 sb1 (k1 : sink) d2 i2 rb2 sb (m : msg) (k : sink),
+  files_ok m -> clean (resolve d1 i1 rb1 m) ->
+  write_to_signed signer d2 i2 rb2 sb (s_msg (write_to_signed signer d1 i1 rb1 sb1 m k1)) k =
+  write_to_signed signer d1 i1 rb1 sb m k.
+Proof. exact signed_again. Qed.
+Print Assumptions C08_signed_again.
+
+(* Instances, by computation: *)
 Definition ex_part (ct : bytes) (d : bytes) : part := mkpart ct [] EncQP d (mkprod [bs "Hello"; bs " world"] false).
 Definition ex_file (n : bytes) : file := mkfile n (bs "application/octet-stream") None [] [] (mkprod [bs "data"] false).
 Definition ex_single : msg :=
@@ -64,3 +125,14 @@ Definition signed_is_first_part (m : msg) : bool :=
 Example C08_examples :
   signed_is_first_part ex_single = true /\ signed_is_first_part ex_full = true /\ signed_is_first_part ex_fileonly = true.
 Proof. vm_compute. repeat split; reflexivity. Qed.
+
+(* the hypotheses of the central theorems hold on these instances *)
+Example C08_hypotheses_satisfiable :
+  let z := resolve (bs "d") (bs "i") ex_rb ex_full in
+  no_bad_boundary z /\ msg_has_failing_producer ex_full = false /\
+  (exists t, forest_gen true z = [t] /\ fresh_for (bs "SB") (ser_node t)) /\ ~ In 13%N (bs "SB").
+Proof.
+  cbv zeta. split; [repeat split; vm_compute; reflexivity|]. split; [vm_compute; reflexivity|].
+  split; [|vm_compute; intuition discriminate].
+  eexists. split; [vm_compute; reflexivity|]. vm_compute. reflexivity.
+Qed.
